@@ -1,10 +1,41 @@
 //! clientsim engine. See /verif/DESIGN.md section 2 and /verif/harness/AGENT_GUIDE.md.
+//!
+//! Serves C43 (PAM fails closed), C44 (offline login accepts only the last password verified
+//! online) and C46 (RADIUS secrets go only to members of required groups).
+
+// The real RADIUS module logic, compiled from /repo on every build. logic.rs refers to
+// `crate::error`, so both sit at this crate's root.
+#[path = "/repo/rlm_kanidm/module/src/error.rs"]
+#[allow(dead_code)]
+mod error;
+#[path = "/repo/rlm_kanidm/module/src/logic.rs"]
+#[allow(dead_code, private_interfaces, unexpected_cfgs)]
+mod logic;
+
+mod c43;
+mod c44;
+mod c46;
+mod httpstub;
 
 fn main() {
+    // kanidm_client (debug assertions) exits the process on a version-header mismatch unless set.
+    // Set before any thread exists.
+    std::env::set_var("KANIDM_DEV_YOLO", "1");
     let args = kvcore::parse_args();
     match args.prop.as_str() {
+        "C43" => c43::run(args),
+        "C44" => c44::run(args),
+        "C46" => c46::run(args),
+        // debugging aid: `clientsim probe-crypt <shadow field> <password>` -> what the real CryptPw says
+        "probe-crypt" => {
+            use std::str::FromStr;
+            let field = args.rest.first().cloned().unwrap_or_default();
+            let pw = args.rest.get(1).cloned().unwrap_or_default();
+            let r = sparkle_unix_common::unix_passwd::CryptPw::from_str(&field).map(|c| c.check_pw(&pw));
+            println!("check_pw({field:?}, {pw:?}) = {r:?}");
+        }
         p => {
-            println!("INCONCLUSIVE property={p} reason=clientsim does not serve this property yet");
+            println!("INCONCLUSIVE property={p} reason=clientsim does not serve this property");
             std::process::exit(2);
         }
     }
